@@ -579,9 +579,21 @@ def run(repo, chk):
         except Unknown as ex_:
             okinv, bad = False, (sec, str(ex_))
     chk.expect(okinv, "R-C12-7", "_sec_to_string(sec) = (h, m, s) with h*3600 + m*60 + s = sec and 0 <= m, s < 60", loc(s2s), found=bad)
+    # START CLOCKTIME: the 12-hour writer composed with _clock_time_to_sec is the identity on every hour of the day
+    from ._shared import clocktime_round_trip
+    rows, wtf, rdf = clocktime_round_trip(repo)
+    chk.fn(wtf, rdf)
+    badrows = [(t, txt, back) for t, txt, back in rows if back != t]
+    for hour in range(24):
+        hb = [b for b in badrows if b[0] // 3600 == hour]
+        chk.expect(not hb, "R-C12-7", "START CLOCKTIME written for an instant in hour %02d reads back as the same instant" % hour, loc(wtf),
+                   "finite evaluation of the AM/PM writer in _write_times composed with _clock_time_to_sec (as _read_times calls it)",
+                   expected="%d s" % hb[0][0] if hb else None, found=("%r reads back as %s" % (hb[0][1], hb[0][2])) if hb else None)
 
 
 WITNESSES = [
+    dict(name="noon-hour-written-as-am", file=IO, old="        if hrs < 12:\n            time_format = ' AM'\n        else:\n            hrs -= 12\n            time_format = ' PM'",
+         new="        time_format = ' AM'\n        if hrs > 12:\n            hrs -= 12\n            time_format = ' PM'", rule="R-C12-7"),
     dict(name="pipe-length-class", file=IO, old="                        to_si(self.flow_units, float(current[3]), HydParam.Length),\n                        to_si(self.flow_units, float(current[4]), HydParam.PipeDiameter),", new="                        to_si(self.flow_units, float(current[3]), HydParam.PipeDiameter),\n                        to_si(self.flow_units, float(current[4]), HydParam.PipeDiameter),", rule="R-C12-2"),
     dict(name="reader-from-si", file=IO, old="                                to_si(self.flow_units, float(current[1]), HydParam.Elevation),\n                                demand_category=None)", new="                                from_si(self.flow_units, float(current[1]), HydParam.Elevation),\n                                demand_category=None)", rule="R-C12-2"),
     dict(name="writer-drops-conversion", file=IO, old="                 'diam': from_si(self.flow_units, tank.diameter, HydParam.TankDiameter),", new="                 'diam': tank.diameter,", rule="R-C12-2"),
